@@ -74,6 +74,11 @@ def opt3(a: int = 0, b: int = 10, c: int = 100) -> int:
     return a + b + c
 
 
+def creds(token: Any = None, password: Any = None, note: Any = None) -> Any:
+    """A task whose argument names look like credentials (views may treat such names specially)."""
+    return [token, password, note]
+
+
 def noargs() -> str:
     return "done"
 
@@ -119,6 +124,12 @@ def prog(node: Any, path: str = "r") -> Any:
     return _eval(node, path, attempt, "prog")
 
 
+def progwf(node: Any, path: str = "r") -> Any:
+    """The same interpreter, to be registered with force_new_workflow=True (a sub-workflow called from inside a task)."""
+    RUNS[path] = RUNS.get(path, 0) + 1
+    return _eval(node, path, RUNS[path], "prog")
+
+
 def dprog(node: Any, path: str = "r") -> Any:
     """Same interpreter registered as a direct task (children are called through the direct wrapper)."""
     RUNS[path] = RUNS.get(path, 0) + 1
@@ -147,6 +158,12 @@ def _eval(node: Any, path: str, attempt: int, me: str) -> Any:
                 total += HOOKS["dprog_call"](ch, f"{path}.{i}") or 0
             else:
                 total += _this_task(me)(ch, f"{path}.{i}").result or 0
+        return total
+    if kind == "wfsum":
+        # children are sub-workflows (force_new_workflow=True) whose results the parent waits for one by one
+        total = node[1]
+        for i, ch in enumerate(node[2]):
+            total += _this_task("progwf")(ch, f"{path}.{i}").result or 0
         return total
     if kind == "group":
         t = _this_task("prog")
